@@ -97,6 +97,13 @@ def cases(run: Run):
         t_imp = rng.choice([k * dt, k * dt, min(k * dt, t_add + rng.randint(1, 20)), k * dt + rng.randint(1, dt)])
         out.append({"op": "scn-join", "start": rng.choice([datetime(2021, 3, 30, 16, 0, 0), rand_start(rng)]).isoformat(), "dt": dt, "N": k + 3, "t_add": t_add, "t_imp": max(t_imp, t_add),
                     "dv": [0.0, 0.01, 0.002], "seed": rng.randint(1, 999)})
+        # two manoeuvre events of one target inside one step; an impulse in the step right after a finite burn of the same target has ended
+        k = rng.randint(2, 4)
+        out.append({"op": "scn-join", "setup": "double", "start": datetime(2021, 3, 30, 16, 0, 0).isoformat(), "dt": dt, "N": k + 3, "t_add": 0,
+                    "t_first": (k - 1) * dt + rng.randint(1, dt // 2), "t_imp": (k - 1) * dt + rng.choice([dt // 2 + 5, dt]), "dv": [0.0, 0.01, 0.002], "seed": rng.randint(1, 999)})
+        out.append({"op": "scn-join", "setup": "burn", "start": datetime(2021, 3, 30, 16, 0, 0).isoformat(), "dt": dt, "N": k + 4, "t_add": 0,
+                    "burn": [(k - 2) * dt + 10, (k - 1) * dt + rng.randint(5, dt - 5)], "t_imp": k * dt + rng.choice([rng.randint(1, dt - 1), dt]), "dv": [0.0, 0.01, 0.002],
+                    "seed": rng.randint(1, 999)})
     return out
 
 
@@ -351,13 +358,25 @@ def impl_scenario_join(c):
         return scen.target_cfg(tid, r, v)
 
     finals = {}
+    setup = c.get("setup", "addition")
+    who = 10101 if setup == "addition" else 10001  # the target that receives the impulse under test
     for with_impulse in (True, False):
         when_add = scen.iso(start + timedelta(seconds=c["t_add"]))
         when_imp = scen.iso(start + timedelta(seconds=c["t_imp"]))
-        events = [{"scope": "scenario_step", "scope_instance_id": 0, "start_time": when_add, "end_time": when_add, "event_type": "target_addition",
-                   "tasking_engine_id": 1, "target_agent": tgt(10101, 3.0, -1.0, 900.0)}]
+        events = []
+        if setup == "addition":
+            events.append({"scope": "scenario_step", "scope_instance_id": 0, "start_time": when_add, "end_time": when_add, "event_type": "target_addition",
+                           "tasking_engine_id": 1, "target_agent": tgt(10101, 3.0, -1.0, 900.0)})
+        elif setup == "double":
+            w1 = scen.iso(start + timedelta(seconds=c["t_first"]))
+            events.append({"scope": "agent_propagation", "scope_instance_id": who, "start_time": w1, "end_time": w1, "event_type": "impulse",
+                           "thrust_vector": [0.003, -0.004, 0.0], "thrust_frame": "eci", "planned": False})
+        else:
+            b0, b1 = (scen.iso(start + timedelta(seconds=t)) for t in c["burn"])
+            events.append({"scope": "agent_propagation", "scope_instance_id": who, "start_time": b0, "end_time": b1, "event_type": "finite_burn",
+                           "acc_vector": [0.0, 2e-5, 0.0], "thrust_frame": "eci", "planned": False})
         if with_impulse:
-            events.append({"scope": "agent_propagation", "scope_instance_id": 10101, "start_time": when_imp, "end_time": when_imp, "event_type": "impulse",
+            events.append({"scope": "agent_propagation", "scope_instance_id": who, "start_time": when_imp, "end_time": when_imp, "event_type": "impulse",
                            "thrust_vector": c["dv"], "thrust_frame": "eci", "planned": False})
         cfg = scen.scenario_cfg(start, dt, dt * (N + 1), [scen.engine_cfg(1, [tgt(10001, 1.0, 2.0, 700.0)], [scen.radar_cfg(60001, 0.0, 0.0)])], truth_only=True,
                                 seed=c.get("seed", 1), events=events, prop="two_body")
@@ -375,16 +394,20 @@ def oracle_scenario_join(c, impl):
     if impl[0] != "ok":
         return [("raises", f"{impl[1]}")]
     w, wo = impl[1]["with"], impl[1]["without"]
-    if 10101 not in w or 10101 not in wo:
+    setup = c.get("setup", "addition")
+    who = 10101 if setup == "addition" else 10001
+    if who not in w or who not in wo:
         return [("scenario-join", f"the target added at +{c['t_add']} s is not in the scenario at the end of the run")]
-    dv = float(np.linalg.norm(np.array(w[10101][3:]) - np.array(wo[10101][3:])))
+    dv = float(np.linalg.norm(np.array(w[who][3:]) - np.array(wo[who][3:])))
     size = float(np.linalg.norm(c["dv"]))
     fails = []
     # a few minutes after the impulse the velocity difference between the two runs is still the delta-v, to within a few per cent
     if not 0.8 * size <= dv <= 1.2 * size:
-        fails.append(("scenario-join", f"start {c['start']} dt {c['dt']}: a target added at +{c['t_add']} s and given an impulse of {size:.4f} km/s at +{c['t_imp']} s ends the run "
+        what = {"addition": f"a target added at +{c['t_add']} s", "double": f"a target that already had an impulse at +{c.get('t_first')} s in the same step",
+                "burn": f"a target whose finite burn {c.get('burn')} s had ended in the step before"}[setup]
+        fails.append(("scenario-join", f"start {c['start']} dt {c['dt']}: {what} and given an impulse of {size:.4f} km/s at +{c['t_imp']} s ends the run "
                                        f"{dv:.4g} km/s from the run without the impulse ({dv / size:.2f} of the delta-v: dropped if 0, duplicated if 2)"))
-    if w[10001] != wo[10001]:
+    if setup == "addition" and w[10001] != wo[10001]:
         fails.append(("scenario-join:other", "the impulse addressed to the added target changed the other target's trajectory"))
     return fails
 
